@@ -1443,6 +1443,8 @@ def factsDoc : Xml.FactsDoc where
 
 def factsHist : Xml.FactsHist where
   appendClearsMemo := %s
+  altNamesInherited := %s
+  falsyValuesChecked := %s
 
 def factsReg : Xml.FactsReg where
   subclassInBaseNs := %s
@@ -1459,7 +1461,8 @@ end SpyneModel.Generated
        str(f['kwFalsyKept']).lower(), str(f['childAttrsIgnored']).lower(), str(f['attrSoftChecked']).lower(),
        str(f['modifierChildSkipped']).lower(), str(f['dataTextUnicode']).lower(),
        str(f['commentsRemoved']).lower(), str(f['pisRemoved']).lower(), str(f['bytesJoinBeforeEncode']).lower(),
-       str(f['appendClearsMemo']).lower(), str(f['subclassInBaseNs']).lower(),
+       str(f['appendClearsMemo']).lower(), str(f['altNamesInherited']).lower(), str(f['falsyValuesChecked']).lower(),
+       str(f['subclassInBaseNs']).lower(),
        str(f['nilTakesDefault']).lower(), str(f['absentTakesDefault']).lower(), str(f['hrefsResolved']).lower())
 
 
@@ -1724,6 +1727,22 @@ def measure_facts():
     f['hrefsResolved'] = all(v == (7, 'm') for v in oh.values())
     w['hrefsResolved'] = {'proto': 'soap11/soap12', 'validator': None, 'request': '<f><v href="#r1"/></f><multiRef id="r1"><n>7</n><s>m</s></multiRef>',
                           'expected': "the function receives OptD(n=7, s='m')", 'observed': repr(oh)}
+    # the wire-name table of subclasses; the enumeration facet and falsy values
+    AB = type(_CM)('AltBase', (_CM,), {'__namespace__': 'urn:alt', '_type_info': [('r', _Int(sub_name='Renamed')), ('q', _Uni(sub_ns='urn:alt2'))]})
+    AM = type(_CM)('AltMid', (AB,), {'__namespace__': 'urn:alt', '_type_info': [('m', _Int)]})
+    AL = type(_CM)('AltLeaf', (AM,), {'__namespace__': 'urn:alt', '_type_info': [('l', _Int)]})
+    alts = {c.__name__: sorted(c._type_info_alt.keys()) for c in (AB, AM, AL)}
+    f['altNamesInherited'] = all(v == ['Renamed', '{urn:alt2}q'] for v in alts.values())
+    w['altNamesInherited'] = {'proto': '-', 'validator': None, 'request': "AltBase(r=Integer(sub_name='Renamed'), q=Unicode(sub_ns='urn:alt2')) "
+                              "<- AltMid <- AltLeaf: keys of _type_info_alt", 'expected': "['Renamed', '{urn:alt2}q'] for all three",
+                              'observed': repr(alts)}
+    vobs = {'Unicode(values=[a,bb]) on ""': _Uni(values=['a', 'bb']).validate_native(_Uni(values=['a', 'bb']), ''),
+            'Integer(values=[1,2,3]) on 0': _Int(values=[1, 2, 3]).validate_native(_Int(values=[1, 2, 3]), 0),
+            'Integer(values=[1,2,3]) on None': _Int(values=[1, 2, 3]).validate_native(_Int(values=[1, 2, 3]), None),
+            'Integer(values=[1,2,3]) on 2': _Int(values=[1, 2, 3]).validate_native(_Int(values=[1, 2, 3]), 2)}
+    f['falsyValuesChecked'] = [bool(x) for x in vobs.values()] == [False, False, True, True]
+    w['falsyValuesChecked'] = {'proto': '-', 'validator': 'soft', 'request': 'validate_native of types with a values facet',
+                               'expected': "'' and 0 refused, None and 2 accepted", 'observed': repr(vobs)}
     # which subclasses an application registers
     from spyne import Application as _App, ServiceBase as _SB, rpc as _rpc, ComplexModel, Integer as _I
     mkc = type(ComplexModel)
@@ -1804,11 +1823,12 @@ GOOD = {'nilRule': 'xsdBoolean', 'xsiTypeCheck': True, 'childAttrGuard': True, '
         'childAttrsIgnored': True, 'attrSoftChecked': True, 'modifierChildSkipped': True, 'dataTextUnicode': True,
         'commentsRemoved': True, 'pisRemoved': True, 'bytesJoinBeforeEncode': True, 'appendClearsMemo': True,
         'bareNothingIsEmptyElement': True, 'subclassInBaseNs': True,
-        'nilTakesDefault': True, 'absentTakesDefault': True, 'hrefsResolved': True}
+        'nilTakesDefault': True, 'absentTakesDefault': True, 'hrefsResolved': True, 'altNamesInherited': True,
+        'falsyValuesChecked': True}
 SWITCH_PROPS = {'C01': ('nilRule', 'emptyStringText', 'outHeaderTupleOk', 'kwFalsyKept', 'streamSameTree', 'childAttrsIgnored',
                         'attrSoftChecked', 'dataTextUnicode', 'commentsRemoved', 'pisRemoved', 'bytesJoinBeforeEncode', 'bareNothingIsEmptyElement', 'nilTakesDefault', 'absentTakesDefault',
-                        'hrefsResolved'), 'C04': ('xsiTypeCheck',), 'C05': ('nilRule', 'emptyStringText', 'attrSoftChecked', 'childAttrsIgnored'),
-                'C10': ('childAttrGuard', 'emptyBodyGuard', 'modifierChildSkipped'), 'C16': ('streamSameTree', 'appendClearsMemo', 'subclassInBaseNs')}
+                        'hrefsResolved', 'appendClearsMemo', 'altNamesInherited'), 'C04': ('xsiTypeCheck',), 'C05': ('nilRule', 'emptyStringText', 'attrSoftChecked', 'childAttrsIgnored', 'falsyValuesChecked'),
+                'C10': ('childAttrGuard', 'emptyBodyGuard', 'modifierChildSkipped'), 'C16': ('streamSameTree', 'appendClearsMemo', 'subclassInBaseNs', 'altNamesInherited')}
 
 
 def t1(ctx):
@@ -2143,6 +2163,7 @@ def part_c01(ctx):
     c01_options(ctx, queries, expect)
     c01_defaults_iterables(ctx)
     c01_declaration_styles(ctx)
+    c16_history(ctx, 'c01')
     answers = ctx.model(queries, driver='C01')
     for q, (op, impl, case), mod in zip(queries, expect, answers):
         if impl is None:
@@ -3143,6 +3164,61 @@ def c04_array_retag(ctx, queries, expect):
                         expect.append(('decode', impl_decode_outcome(b, r), replay))
 
 
+def c04_ancestor_retag(ctx, queries, expect):
+    """an element declared with a SUBCLASS (plain or through a customised variant: member, array item, repeated member)
+    carries xsi:type naming an ANCESTOR of the declared class: user code must not receive the ancestor"""
+    rng = ctx.rng
+    n_univ = 50 if ctx.thorough else 10
+    for ui in range(n_univ):
+        u = gen_universe(rng, 1700 + ui, n_classes=rng.randint(3, 6), inherit=0.8)
+        b = build_classes(u)
+        servers = servers_for(b, validators=(None, 'soft'))
+        for mname in sorted(b.methods):
+            key, in_ty, out_ty = b.methods[mname]
+            call = None
+            for _try in range(4):
+                call = gen_call(rng, b, mname)
+                if call is not None:
+                    break
+            if call is None:
+                continue
+            args, rets = call
+            set_return(b, mname, out_ty, rets)
+            req = ref_encode_one(b, in_ty, msg_val(in_ty, args), u['tns'], mname, u['tns'])
+            objs = [(pth, ct) for pth, ct in typed_objects(in_ty, req) if pth and b.base_of.get(ct['name'])]
+            rng.shuffle(objs)
+            for pth, ct in objs[:3]:
+                anc, c = [], b.base_of.get(ct['name'])
+                while c and c in b.ns_of and len(anc) < 4:
+                    anc.append(c)
+                    c = b.base_of.get(c)
+                for a in anc:
+                    mut = clone(req)
+                    el = node_at(mut, pth)
+                    el['a'] = [x for x in el['a'] if x[0] != XSI_TYPE] + [[XSI_TYPE, cps('{%s}%s' % (b.ns_of[a], a))]]
+                    for (proto, validator), (app, server) in sorted(servers.items(), key=str):
+                        if rng.random() < 0.5:
+                            continue
+                        data = to_bytes(wrap_envelope(proto, [mut]))
+                        r = run_request(b, server, data)
+                        ctx.case({'p': proto, 'v': validator, 'doc': mut}, True)
+                        ctx.hit('c04:ancestor-retag:%s' % list(r.outcome_class())[0])
+                        replay = {'kind': 'c04', 'universe': u, 'proto': proto, 'validator': validator, 'method': mname,
+                                  'request': data.decode('utf-8', 'replace'), 'retag': a, 'declared': ct['name'], 'path': list(pth)}
+                        if r.calls:
+                            vals = [from_native(b, t, x) for (_, t), x in zip(in_ty['fields'], r.calls[0][1])]
+                            for (an, t), v in zip(in_ty['fields'], vals):
+                                if not py_has_ty(b, t, v):
+                                    ctx.finding('c04:foreign-value:ancestor-retag', 'user code received a value that is not of the '
+                                                'declared type of %s after an element declared as %s was retagged with its ancestor '
+                                                '%s' % (an, ct['name'], a), dict(replay, received=vals))
+                                    break
+                        parsed = parse_like_spyne(data, app.in_protocol)
+                        if parsed is not None and t2_comparable(b, proto, node_of(parsed)):
+                            queries.append(decode_query(b, proto, validator, node_of(parsed), need_iface=True))
+                            expect.append(('decode', impl_decode_outcome(b, r), replay))
+
+
 def part_c04(ctx):
     """type-directed mutation: retag every element of valid requests with every class key the interface knows
     (and unknown ones); user code must only ever see values of the declared types (T3), model == code (T2)"""
@@ -3201,6 +3277,7 @@ def part_c04(ctx):
                         vv = queries[-1]['val']
                         expect.append(('hasTy', {'ok': py_has_ty_one(b, in_ty, vv)} if _no_bad(vv) else None, replay))
     c04_array_retag(ctx, queries, expect)
+    c04_ancestor_retag(ctx, queries, expect)
     c04_sequences(ctx)
     attrs_hostile(ctx, 'c04')
     answers = ctx.model(queries, driver='C01')
@@ -3280,8 +3357,9 @@ def replay(ctx, obj):
         ok = not fault and not exc and calls == [parse(obj['literal'])] and res is not None and parse(res) == parse(obj['literal'])
         return 0 if ok else 1
     if kind == 'probe' and obj.get('probe') == 'c16-history':
-        new, problems = _hist_scenario(obj['op'])
-        print('scenario: classes used, then %s_field(%r) on an ancestor, then round trips' % (obj['op'], new))
+        new, problems = _hist_scenario(obj['op'], obj.get('reuse', False))
+        print('scenario: classes used, then %s_field(%r) on an ancestor, then round trips (%s applications)' % (
+            obj['op'], new, 'long-lived' if obj.get('reuse') else 'fresh'))
         for proto, validator, cn, where, what, req in problems[:12]:
             print('%s/%s %s %s: %s\n    request: %s' % (proto, validator, cn, where, what, req[:400]))
         print('%d problems' % len(problems))
@@ -3477,6 +3555,7 @@ def violate(rng, b, ty, v, one=False):
             edge = [(s + [0x0A], 'trailing-newline'), (s + [0x0D, 0x0A], 'trailing-crlf'), ([0x20] + s, 'leading-blank')]
             if p['values']:
                 opts.append(({'s': cps('zz-not-a-value')}, 'str-not-in-values'))
+                opts.append(({'s': []}, 'str-values-empty'))        # the falsy candidate: '' is a value like any other
                 opts += [({'s': e}, 'str-values-' + tg) for e, tg in edge]
             elif p['pat'] is not None:
                 opts.append(({'s': s + [0x21]}, 'str-pattern-class'))
@@ -3557,6 +3636,8 @@ def string_edges(ty, v, one=False):
                 s = (s + [120] * p['max'])[:p['max']]
             out += [({'s': s + [0x0A]}, 'edge:%s-trailing-newline' % facet), ({'s': s + [0x0D, 0x0A]}, 'edge:%s-trailing-crlf' % facet),
                     ({'s': [0x20] + s}, 'edge:%s-leading-blank' % facet)]
+            if facet == 'values':
+                out.append(({'s': []}, 'edge:values-empty-string'))
     elif ty['k'] == 'obj' and 'o' in v:
         cls, fs = v['o']
         if cls == ty['name']:
@@ -3801,6 +3882,15 @@ def _range_specs():
     cd = [('-123.45', True), ('-499.99', True), ('499.99', True), ('500', True), ('500.00', True), ('-500', True), ('-500.01', False),
           ('500.01', False), ('0.5', True), ('-0.05', True), ('-600', False)]
     specs.append(('decimal(5,2)[ge,le]', Decimal(5, 2, ge=-500, le=500), cd))
+    # enumeration facet: the falsy non-null candidates (0, 0.0, '', false) are values like any other
+    from spyne import Integer, Unicode, Boolean
+    specs.append(('integer{1,2,3}', Integer(values=[1, 2, 3]), [('0', False), ('1', True), ('3', True), ('4', False), ('-1', False)]))
+    specs.append(('integer{1,2,3}:not-nillable', Integer(values=[1, 2, 3], nillable=False), [('0', False), ('2', True)]))
+    specs.append(('decimal{1.5,2}', Decimal(values=[decimal.Decimal('1.5'), decimal.Decimal('2')]),
+                  [('0', False), ('0.0', False), ('1.5', True), ('2', True), ('2.0', True)]))
+    specs.append(('double{1.5}', Double(values=[1.5]), [('0', False), ('0.0', False), ('1.5', True), ('-0.0', False)]))
+    specs.append(('unicode{a,bb}', Unicode(values=['a', 'bb']), [('', False), ('a', True), ('bb', True), ('b', False)]))
+    specs.append(('boolean{true}', Boolean(values=[True]), [('false', False), ('0', False), ('true', True), ('1', True)]))
     f0, f1 = 0.1, 2.5
     fls = [-1.0, 0.0, math.nextafter(f0, -1), f0, math.nextafter(f0, 1), 1.0, math.nextafter(f1, 0), f1, math.nextafter(f1, 9), 1e300]
     specs.append(('double(gt,le]', Double(gt=f0, le=f1), [(repr(x), f0 < x <= f1) for x in fls]))
@@ -3986,38 +4076,44 @@ _HIST_COUNTER = [0]
 
 
 def history_tree():
-    """a fresh class tree Base(a) <- Mid(m) <- Leaf(l), Side(s) <- Base, with an echo service over Base and Array(Base);
-    reusable by other blocks: returns (namespace, classes by short name, service class, list that records arguments)"""
+    """a fresh class tree Base(a, r renamed with sub_name, q in another namespace with sub_ns) <- Mid(m) <- Leaf(l),
+    Side(s) <- Base, with echo methods declared on Base, Array(Base), Mid and Leaf; reusable by other blocks:
+    returns (namespace, classes by short name, service class, list that records arguments)"""
     from spyne import ServiceBase, rpc, ComplexModel, Unicode, Integer, Array
     _HIST_COUNTER[0] += 1
     n = _HIST_COUNTER[0]
     ns = 'urn:hist%d' % n
     mk = type(ComplexModel)
-    Base = mk('HBase%d' % n, (ComplexModel,), {'__namespace__': ns, '_type_info': [('a', Unicode)]})
+    Base = mk('HBase%d' % n, (ComplexModel,), {'__namespace__': ns, '_type_info': [
+        ('a', Unicode), ('r', Integer(sub_name='Renamed')), ('q', Unicode(sub_ns=ns + ':other'))]})
     Mid = mk('HMid%d' % n, (Base,), {'__namespace__': ns, '_type_info': [('m', Integer)]})
     Leaf = mk('HLeaf%d' % n, (Mid,), {'__namespace__': ns, '_type_info': [('l', Unicode)]})
     Side = mk('HSide%d' % n, (Base,), {'__namespace__': ns, '_type_info': [('s', Unicode)]})
     seen = []
 
-    def echo(ctx, v):
-        seen.append(v)
-        return v
-
-    def echo_all(ctx, vs):
-        seen.append(vs)
-        return vs
-    Svc = type('HSvc%d' % n, (ServiceBase,), {'echo': rpc(Base, _returns=Base)(echo),
-                                              'echo_all': rpc(Array(Base), _returns=Array(Base))(echo_all)})
+    def mkecho(name):
+        env = {'seen': seen}
+        exec('def %s(ctx, v):\n    seen.append(v)\n    return v\n' % name, env)
+        return env[name]
+    Svc = type('HSvc%d' % n, (ServiceBase,), {
+        'echo': rpc(Base, _returns=Base)(mkecho('echo')), 'echo_all': rpc(Array(Base), _returns=Array(Base))(mkecho('echo_all')),
+        'echo_mid': rpc(Mid, _returns=Mid)(mkecho('echo_mid')), 'echo_leaf': rpc(Leaf.customize(min_occurs=1), _returns=Leaf)(mkecho('echo_leaf'))})
     return ns, {'Base': Base, 'Mid': Mid, 'Leaf': Leaf, 'Side': Side}, Svc, seen
 
 
-def _hist_run(ns, Svc, seen, proto, validator, body):
+def _hist_run(ns, Svc, seen, proto, validator, body, cache=None):
+    """one request; with `cache` (a dict) the Application / ServerBase of (proto, validator) lives as long as the dict"""
     from lxml import etree
     from spyne import Application, MethodContext
     from spyne.server import ServerBase
-    app = Application([Svc], ns, in_protocol=make_protocol(proto, validator, polymorphic=True),
-                      out_protocol=make_protocol(proto, None, polymorphic=True))
-    server = ServerBase(app)
+    if cache is not None and (proto, validator) in cache:
+        server = cache[(proto, validator)]
+    else:
+        app = Application([Svc], ns, in_protocol=make_protocol(proto, validator, polymorphic=True),
+                          out_protocol=make_protocol(proto, None, polymorphic=True))
+        server = ServerBase(app)
+        if cache is not None:
+            cache[(proto, validator)] = server
     env = body if proto == 'xml' else '<e:Envelope xmlns:e="%s"><e:Body>%s</e:Body></e:Envelope>' % (
         NS_SOAP11 if proto == 'soap11' else NS_SOAP12, body)
     del seen[:]
@@ -4034,35 +4130,58 @@ def _hist_run(ns, Svc, seen, proto, validator, body):
     return list(seen), (err.faultcode if err is not None else None), unwrap_envelope(proto, etree.fromstring(out)), env
 
 
-def _hist_scenario(op):
-    """warm the tree in every protocol, change an ancestor, round-trip instances of every class again
-    -> [(proto, validator, class, position, problem, request)]"""
-    ns, C, Svc, seen = history_tree()
-    order = {'Base': ['a'], 'Mid': ['a', 'm'], 'Leaf': ['a', 'm', 'l'], 'Side': ['a', 's']}
-    vals = {'a': 'A', 'm': '3', 'l': 'L', 's': 'S', 'late': 'NEW', 'early': '7'}
+HIST_OPS = ('none', 'append', 'insert')
 
-    def inst_xml(tag, cname, fields):
-        kids = ''.join('<h:%s>%s</h:%s>' % (k, vals[k], k) for k in fields)
-        return '<%s xmlns:h="%s" xmlns:xsi="%s" xsi:type="h:%s">%s</%s>' % (tag, ns, XSI, C[cname].get_type_name(), kids, tag)
+
+def _hist_scenario(op, reuse):
+    """use the tree in every protocol (requests, instances, flat type info), change an ancestor (op), round-trip instances
+    of every class again — declared base + xsi:type (directly and as array items) and DECLARED subclass (echo_mid,
+    echo_leaf); `reuse`: on the applications that served the warm-up requests (long-lived), else on fresh ones.
+    Base declares a member renamed with sub_name and one moved with sub_ns: every subclass must read and write them.
+    -> (name of the new member, [(proto, validator, class, position, problem, request)])"""
+    ns, C, Svc, seen = history_tree()
+    ons = ns + ':other'
+    order = {'Base': ['a', 'r', 'q'], 'Mid': ['a', 'r', 'q', 'm'], 'Leaf': ['a', 'r', 'q', 'm', 'l'], 'Side': ['a', 'r', 'q', 's']}
+    vals = {'a': 'A', 'r': '5', 'q': 'Q', 'm': '3', 'l': 'L', 's': 'S', 'late': 'NEW', 'early': '7'}
+    wire = {'r': (ns, 'Renamed'), 'q': (ons, 'q')}
+    cache = {} if reuse else None
+
+    def inst_xml(tag, cname, fields, typed=True):
+        kids = ''.join('<%s:%s>%s</%s:%s>' % (('o' if wire.get(k, (ns,))[0] == ons else 'h'), wire.get(k, (ns, k))[1], vals[k],
+                                              ('o' if wire.get(k, (ns,))[0] == ons else 'h'), wire.get(k, (ns, k))[1]) for k in fields)
+        xt = ' xmlns:xsi="%s" xsi:type="h:%s"' % (XSI, C[cname].get_type_name()) if typed else ''
+        return '<%s xmlns:h="%s" xmlns:o="%s"%s>%s</%s>' % (tag, ns, ons, xt, kids, tag)
 
     def one(cname, fields):
         return '<h:echo xmlns:h="%s">%s</h:echo>' % (ns, inst_xml('h:v', cname, fields))
 
+    def declared(meth, cname, fields):
+        return '<h:%s xmlns:h="%s">%s</h:%s>' % (meth, ns, inst_xml('h:v', cname, fields, typed=False), meth)
+
     def many(cnames, fields_of):
         items = ''.join(inst_xml('h:%s' % C['Base'].get_type_name(), cn, fields_of[cn]) for cn in cnames)
-        return '<h:echo_all xmlns:h="%s"><h:vs>%s</h:vs></h:echo_all>' % (ns, items)
+        return '<h:echo_all xmlns:h="%s"><h:v>%s</h:v></h:echo_all>' % (ns, items)
     for proto in PROTOS:                                   # the tree is in use
-        for cn in ('Base', 'Mid', 'Leaf', 'Side'):
-            _hist_run(ns, Svc, seen, proto, None, one(cn, order[cn]))
-        _hist_run(ns, Svc, seen, proto, None, many(['Leaf', 'Base', 'Side', 'Mid'], order))
+        for validator in (None, 'soft'):
+            for cn in ('Base', 'Mid', 'Leaf', 'Side'):
+                _hist_run(ns, Svc, seen, proto, validator, one(cn, order[cn]), cache)
+            _hist_run(ns, Svc, seen, proto, validator, many(['Leaf', 'Base', 'Side', 'Mid'], order), cache)
+            _hist_run(ns, Svc, seen, proto, validator, declared('echo_mid', 'Mid', order['Mid']), cache)
+            _hist_run(ns, Svc, seen, proto, validator, declared('echo_leaf', 'Leaf', order['Leaf']), cache)
+    for k in C.values():
+        k()
+        list(k.get_flat_type_info(k))
     from spyne import Unicode, Integer
+    new = None
     if op == 'append':
         C['Base'].append_field('late', Unicode)
-        order = {'Base': ['a', 'late'], 'Mid': ['a', 'late', 'm'], 'Leaf': ['a', 'late', 'm', 'l'], 'Side': ['a', 'late', 's']}
+        order = {'Base': ['a', 'r', 'q', 'late'], 'Mid': ['a', 'r', 'q', 'late', 'm'], 'Leaf': ['a', 'r', 'q', 'late', 'm', 'l'],
+                 'Side': ['a', 'r', 'q', 'late', 's']}
         new = 'late'
-    else:
+    elif op == 'insert':
         C['Mid'].insert_field(0, 'early', Integer)
-        order = {'Base': ['a'], 'Mid': ['a', 'early', 'm'], 'Leaf': ['a', 'early', 'm', 'l'], 'Side': ['a', 's']}
+        order = {'Base': ['a', 'r', 'q'], 'Mid': ['a', 'r', 'q', 'early', 'm'], 'Leaf': ['a', 'r', 'q', 'early', 'm', 'l'],
+                 'Side': ['a', 'r', 'q', 's']}
         new = 'early'
     problems = []
 
@@ -4076,23 +4195,30 @@ def _hist_scenario(op):
                         cn, k, getattr(o, k, None), vals[k]), req))
 
     def check_el(el, cn, where, proto, validator, req):
-        got = [(etree_local(c), c.text) for c in el]
-        want = [(k, vals[k]) for k in order[cn]]
+        from lxml import etree
+        got = [(etree.QName(c).namespace, etree.QName(c).localname, c.text) for c in el]
+        want = [wire.get(k, (ns, k)) + (vals[k],) for k in order[cn]]
         if got != want:
             problems.append((proto, validator, cn, where, 'the response carries %r for a %s, parents-first expectation %r' % (
                 got, cn, want), req))
     for proto in PROTOS:
         for validator in (None, 'soft'):
             for cn in ('Base', 'Mid', 'Leaf', 'Side'):
-                req = one(cn, order[cn])
-                got, fault, resp, env = _hist_run(ns, Svc, seen, proto, validator, req)
+                got, fault, resp, env = _hist_run(ns, Svc, seen, proto, validator, one(cn, order[cn]), cache)
                 if fault or len(got) != 1:
                     problems.append((proto, validator, cn, 'argument', 'fault %s, %d calls' % (fault, len(got)), env))
                     continue
                 check_obj(got[0], cn, 'argument', proto, validator, env)
                 check_el(resp[0], cn, 'result', proto, validator, env)
+            for meth, cn in (('echo_mid', 'Mid'), ('echo_leaf', 'Leaf')):
+                got, fault, resp, env = _hist_run(ns, Svc, seen, proto, validator, declared(meth, cn, order[cn]), cache)
+                if fault or len(got) != 1:
+                    problems.append((proto, validator, cn, 'declared-subclass argument', 'fault %s, %d calls' % (fault, len(got)), env))
+                    continue
+                check_obj(got[0], cn, 'declared-subclass argument', proto, validator, env)
+                check_el(resp[0], cn, 'declared-subclass result', proto, validator, env)
             cns = ['Leaf', 'Base', 'Side', 'Mid', 'Leaf']
-            got, fault, resp, env = _hist_run(ns, Svc, seen, proto, validator, many(cns, order))
+            got, fault, resp, env = _hist_run(ns, Svc, seen, proto, validator, many(cns, order), cache)
             if fault or len(got) != 1 or got[0] is None or len(got[0]) != len(cns):
                 problems.append((proto, validator, 'Array(Base)', 'argument', 'fault %s, received %r' % (fault, got), env))
                 continue
@@ -4108,23 +4234,30 @@ def etree_local(el):
     return etree.QName(el).localname
 
 
-def c16_history(ctx):
-    """history dimension: use the subclasses, then append_field / insert_field on an ancestor, then round-trip
-    instances of every class (depth 1-3, also as items of an array of the base) through xml / soap11 / soap12"""
-    for op in ('append', 'insert'):
-        new, problems = _hist_scenario(op)
-        ctx.case({'probe': 'c16-history', 'op': op}, True)
-        ctx.hit('c16:history:%s:%s' % (op, 'lost' if problems else 'ok'))
-        for proto, validator, cn, where, what, req in problems[:6]:
-            ctx.finding('c16:history:%s:%s:%s' % (op, cn, where.split()[0]),
-                        'after %s_field(%r) on an ancestor that was already in use, %s (%s, validator=%s): %s' % (
-                            op, new, where, proto, validator, what),
-                        {'kind': 'probe', 'probe': 'c16-history', 'op': op, 'proto': proto, 'validator': validator, 'class': cn,
-                         'request': req})
-    ctx.cov['rule_c16_history'] = ('Base<-Mid<-Leaf, Base<-Side used in every protocol, then Base.append_field / '
-                                   'Mid.insert_field(0, ...), then instances of all four classes (directly and as items of '
-                                   'Array(Base)) through {xml,soap11,soap12} x {None,soft}, polymorphic: values at the '
-                                   'function and parents-first element order in the response')
+def c16_history(ctx, pid='c16'):
+    """history dimension: use the classes (requests through long-lived applications, instances, flat type info), then
+    append_field / insert_field on an ancestor (or nothing), then round-trip instances of every class — declared base
+    with xsi:type (directly and as items of an array of the base) and declared subclass — through xml / soap11 / soap12,
+    on the same applications and on fresh ones; the base declares renamed members (sub_name, sub_ns)"""
+    for op in HIST_OPS:
+        for reuse in (True, False):
+            new, problems = _hist_scenario(op, reuse)
+            ctx.case({'probe': 'c16-history', 'op': op, 'reuse': reuse}, True)
+            ctx.hit('%s:history:%s:%s:%s' % (pid, op, 'long-lived' if reuse else 'fresh', 'lost' if problems else 'ok'))
+            for proto, validator, cn, where, what, req in problems[:6]:
+                ctx.finding('%s:history:%s:%s:%s' % (pid, op, cn, where.split()[0]),
+                            '%s %s (%s, validator=%s, %s application): %s' % (
+                                'after %s_field(%r) on an ancestor that was already in use,' % (op, new) if new else
+                                'class tree with renamed ancestor members,', where, proto, validator,
+                                'long-lived' if reuse else 'fresh', what),
+                            {'kind': 'probe', 'probe': 'c16-history', 'op': op, 'reuse': reuse, 'proto': proto,
+                             'validator': validator, 'class': cn, 'request': req})
+    ctx.cov['rule_%s_history' % pid] = ('Base(a, r: sub_name, q: sub_ns)<-Mid<-Leaf, Base<-Side: used (requests on long-lived '
+                                        'applications, instances, flat type info), then nothing / Base.append_field / '
+                                        'Mid.insert_field(0, ...), then instances of all four classes — declared base + xsi:type '
+                                        '(directly, as items of Array(Base)) and declared subclass (plain and customised) — '
+                                        'through {xml,soap11,soap12} x {None,soft} on the same and on fresh applications: values '
+                                        'at the function, parents-first wire names in the response')
 
 
 def part_c16(ctx):
